@@ -11,6 +11,10 @@ META = comp_engine.meta("C01")
 def run(ctx):
     comp_engine.run(ctx, "C01", **comp_engine.PARAMS.get("C01", {}))
     comp_engine.extra(ctx, "C01")
+    # map/parallel branches: re-submission of a timed-suspended branch inside one invocation and replay of
+    # branches in later invocations must not re-enter a step whose outcome the backend holds
+    from harness import comp_executor
+    comp_executor.run_prop(ctx, "C01", n_quick=120, n_thorough=3000)
 
 
 def search(ctx):
@@ -18,4 +22,8 @@ def search(ctx):
 
 
 def replay(ctx, rec):
-    comp_engine.replay(ctx, rec, "C01")
+    if "blocks" in (rec["case"].get("scenario") or {}):
+        from harness import comp_executor
+        comp_executor.replay(ctx, rec, "C01")
+    else:
+        comp_engine.replay(ctx, rec, "C01")
